@@ -4,14 +4,20 @@ Engine interface (see harness/run_check.py):
   THEOREMS, LEVEL, RULE, BRANCHES, generate, run_impl, model_requests, model_result,
   compare, oracle, features, nontrivial_key, search, shrink
 
-Four kinds of cases (`op`):
+Seven kinds of cases (`op`; the last three were added in round 3):
   neighbors  `_get_searchlight_neighbors(mask, center, radius)`      vs  `neighborsAlgo` (exact, order too)
   volume     `get_volume_searchlight(mask, radius, threshold)`       vs  `volumeSearchlight` (exact, order too)
   rdms       `get_searchlight_RDMs(data, centers, neighbors, events, method)`
                                                                       vs  `slRdms` (Rat for euclidean /
                                                                           mahalanobis, Float otherwise)
   eval       `evaluate_models_searchlight(sl_RDM, models, f, n_jobs=…)`
-                                                                      vs  `collect` (slot per task)
+                                                                      vs  `collect` (slot per task) and, end to end,
+                                                                          `evalSearchlight (parCollect order)`
+  points     the split points the code hands to `np.split`, n = 1001..20000
+                                                                      vs  `linspacePts`, `ptsOkB`, `splitIdx`
+  pipeline   the three library calls chained on the library's own intermediate results
+                                                                      vs  the term of `pipeline_per_center`
+  (boundary volumes and alternate input forms are `volume` / `rdms` cases)
 Numbers: radii are stored as the exact rational value of the float handed to the library,
 thresholds as small fractions p/q (the library gets float(p/q)); data are small integers.
 """
@@ -41,7 +47,14 @@ THEOREMS = [P + n for n in (
     'rdm_columns_order_irrelevant', 'rdm_euclid_of_searchlight',
     'prefilter_leaves', 'radius_test_leaf', 'accept_leaf', 'chunk_limit_leaf', 'rdm_width_leaf',
     'euclid_is_C01_spec',
-    'parallel_order_independent_partial', 'parallel_perm_partial')]
+    'parallel_order_independent_partial', 'parallel_perm_partial',
+    # round 3
+    'radius_le_one_singleton', 'huge_radius_whole_volume', 'spec_length_ne_zero',
+    'threshold_zero_accepts_all', 'threshold_above_one_rejects_all', 'threshold_one_iff_inside',
+    'rdm_rows_eq_map', 'ptsOkB_sound', 'checked_points_partition',
+    'tasks_one_per_center', 'eval_per_center', 'eval_per_center_any_schedule',
+    'pipeline_per_center', 'chunks_cover_any_points', 'table_rows_any_points',
+    'rdm_corr_of_searchlight', 'rdm_poisson_of_searchlight')]
 RULE = ('one PRNG; ops: neighbors (shape 1..5 per axis, centre inside or up to 2 outside, radius from '
         '{-1,0,.5,1,1.41,1.42,1.5,1.7,1.73,2,2.24,2.3,2.5,3}), volume (shape <= 4x4x3 quick / 5x5x4 '
         'thorough, random mask contents as bool/int/float/non-binary values, thresholds '
@@ -50,7 +63,14 @@ RULE = ('one PRNG; ops: neighbors (shape 1..5 per axis, centre inside or up to 2
         'labels, methods euclidean/mahalanobis/correlation/poisson/crossnobis/poisson_cv (default folds; unbalanced, single-fold designs and an unknown method as rejections); plus volumes with 1000, 1001 and >1001 '
         'centres for the chunked branch), eval (token task through evaluate_models_searchlight with '
         'n_jobs 1-4, thread and process backends, scrambled completion order, and eval_fixed compared '
-        'with the per-centre direct call). Non-trivial: a searchlight that is neither empty nor the whole '
+        'with the per-centre direct call; the vector every task received is compared with the model\'s end-to-end '
+        'result), boundary volumes (one voxel thick, radius <= 1, radius 10/15 = whole volume, thresholds 0 / 1 / '
+        'exactly the in-mask fraction of some voxel), input forms of get_searchlight_RDMs (data as list / int / '
+        'float32 / Fortran / strided, neighbours as lists / arrays / tuples, centres as list, string event labels), '
+        'points (for EVERY n in 1001..20000 plus a few up to 10^6 the split points the code under check hands to '
+        'np.split, read off by stopping the call there: admissible, equal to the model\'s IEEE linspace, chunks '
+        'partition 0..n-1; chunk lengths for every 25th n quick / all thorough), pipeline (mask -> library centres '
+        '-> RDMs -> evaluation list, incl. one volume with > 1000 centres). Non-trivial: a searchlight that is neither empty nor the whole '
         'volume / a volume where some but not all mask voxels are accepted / any rdms or eval case with '
         '>= 2 centres; distinct = distinct canonical input.')
 BRANCHES = ['nb:clipped', 'nb:interior', 'nb:outside_center', 'nb:r_le_0', 'nb:boundary_radius',
@@ -59,7 +79,15 @@ BRANCHES = ['nb:clipped', 'nb:interior', 'nb:outside_center', 'nb:r_le_0', 'nb:b
             'rdms:euclidean', 'rdms:correlation', 'rdms:poisson', 'rdms:mahalanobis',
             'rdms:crossnobis', 'rdms:poisson_cv', 'rdms:unbalanced_rejected', 'rdms:single_fold_rejected',
             'rdms:unknown_method',
-            'eval:jobs1', 'eval:threads', 'eval:processes']
+            'eval:jobs1', 'eval:threads', 'eval:processes',
+            # round 3
+            'nb:whole_volume', 'nb:singleton', 'nb:thin', 'nb:noncubic', 'nb:huge_radius',
+            'vol:thr0', 'vol:thr1', 'vol:frac_eq_thr', 'vol:border_accepted', 'vol:thin',
+            'vol:huge_radius', 'vol:radius_le_1',
+            'rdms:form_list', 'rdms:form_fortran', 'rdms:form_int', 'rdms:form_f32',
+            'rdms:labels_str', 'rdms:nb_arrays', 'rdms:nb_tuples', 'rdms:centers_list',
+            'pts:range', 'pts:deviates_from_floor', 'pts:uneven_chunks',
+            'eval:end_to_end', 'eval:out_of_order', 'pipe:some', 'pipe:chunked']
 ASSUMPTIONS = [
     'float64 `sqrt(k) < r` agrees with the exact test `0 < r and k < r^2` for the generated radii '
     '(never within 1e-3 of an irrational sqrt(k); integer radii hit perfect squares exactly)',
@@ -68,19 +96,24 @@ ASSUMPTIONS = [
 ]
 TRUSTED_EXTRA = [
     'numpy: np.nonzero enumerates in C order; np.ravel_multi_index is C-order raveling; '
-    'np.split(np.arange(n), pts) slices consecutively; np.linspace(0,n,101,dtype=int)[1:-1] is '
-    'non-decreasing and <= n (checked on every chunked case)',
+    'np.split(np.arange(n), pts) slices consecutively; np.linspace(0,n,101,dtype=int)[1:-1] = '
+    'floor(i * (n / 100)) in IEEE doubles (model `linspacePts`, compared with the points of the code for every '
+    'n in 1001..20000 each run; admissibility `ptsOkB` checked on all of them; `table_rows_any_points` needs '
+    'no assumption on the points at all)',
     'joblib.Parallel returns results in task order for every backend and n_jobs (contract '
     '`parallel_full`; observed for n_jobs 1-4, threading and loky)',
 ]
 
 RADII = [F(-1), F(0), F(1, 2), F(1), F(1.41), F(1.42), F(3, 2), F(1.7), F(1.73), F(2), F(2.24), F(2.3),
-         F(5, 2), F(3)]
+         F(5, 2), F(3), F(10), F(15)]
 RADII_POS = [r for r in RADII if r > 0]
+RADII_HUGE = [F(10), F(15)]     # whole volume; kept moderate: implementations that build a
+#                                 template sphere of the radius get slow with 100 (seeded C19-5 / C19-6: 400 s)
 CV_METHODS = ('crossnobis', 'poisson_cv')
 METHODS = ['euclidean', 'correlation', 'poisson', 'mahalanobis', 'crossnobis', 'poisson_cv']
 THRESHOLDS = [F(0), F(1, 3), F(1, 2), F(2, 3), F(7, 10), F(1)]
 _OBSERVED_ORDER = {}
+_POINTS_IMPL = {}
 
 
 # ------------------------------------------------------------------ helpers
@@ -126,8 +159,13 @@ def _lin(shape, v):
     return (v[0] * shape[1] + v[1]) * shape[2] + v[2]
 
 
-def _spec_volume(shape, flags, r, thr, fast=False):
-    """accepted centres (ascending linear index) and their searchlights (linear, C order)"""
+_VOL_INFO = {}
+
+
+def _spec_volume(shape, flags, r, thr, fast=False, info=None):
+    """accepted centres (ascending linear index) and their searchlights (linear, C order);
+    `info` (a dict) receives boundary facts: a mask voxel whose in-mask fraction equals the
+    threshold exactly, an accepted centre whose searchlight is clipped by the volume"""
     centers, nbs = [], []
     n = shape[0] * shape[1] * shape[2]
     fl = np.asarray(flags)
@@ -142,6 +180,13 @@ def _spec_volume(shape, flags, r, thr, fast=False):
         else:
             s = [_lin(shape, v) for v in _spec_searchlight(shape, c, r)]
             cnt, tot = sum(1 for j in s if flags[j]), len(s)
+        if info is not None and tot > 0:
+            if F(cnt, tot) == thr:
+                info['frac_eq_thr'] = True
+            if F(cnt, tot) >= thr and r > 0:
+                reach = math.ceil(r) - 1 if r.denominator == 1 else math.floor(r)
+                if any(ci - reach < 0 or ci + reach >= sh for ci, sh in zip(c, shape)):
+                    info['border_accepted'] = True
         if tot > 0 and F(cnt, tot) >= thr:
             centers.append(i)
             nbs.append(s)
@@ -191,11 +236,111 @@ def _expand_rdms(case):
     return data, centers, nbs, events
 
 
-def _pts(n):
-    pts = [int(p) for p in np.linspace(0, n, 101, dtype=int)[1:-1]]
-    assert all(a <= b for a, b in zip(pts, pts[1:])) and all(0 <= p <= n for p in pts), \
-        'numpy linspace contract (non-decreasing split points within [0, n]) violated'
-    return pts
+def _label_str(e):
+    """string form of an integer event label whose lexicographic order is the integer order"""
+    return 'c%03d' % (e + 100)
+
+
+def _lib_args(case, data, centers, nbs, events):
+    """the arguments in the form the case asks for (`form`): every public way of handing the
+    same data matrix / centres / neighbour lists / events to `get_searchlight_RDMs`"""
+    form = case.get('form') or {}
+    dk = form.get('data', 'float')
+    if dk == 'list':
+        d = [[float(v) for v in row] for row in data]
+    elif dk == 'int':
+        d = np.array(data, dtype=int)
+    elif dk == 'f32':
+        d = np.array(data, dtype=np.float32)
+    elif dk == 'fortran':
+        d = np.asfortranarray(np.array(data, dtype=float))
+    elif dk == 'strided':
+        big = np.zeros((len(data) * 2, len(data[0]) * 2))
+        big[::2, ::2] = np.array(data, dtype=float)
+        d = big[::2, ::2]
+    else:
+        d = np.array(data, dtype=float)
+    nk = form.get('nb', 'list')
+    if nk == 'array':
+        nb = [np.array(s, dtype=int) for s in nbs]
+    elif nk == 'tuple':
+        nb = tuple(tuple(s) for s in nbs)
+    else:
+        nb = nbs
+    c = list(centers) if form.get('centers') == 'list' else np.array(centers)
+    ev = [_label_str(e) for e in events] if form.get('events') == 'str' else events
+    ev = ev if form.get('events_list') else np.array(ev)
+    return d, c, nb, ev
+
+
+class _Abort(Exception):
+    pass
+
+
+class _NumpyProxy:
+    """stands in for the `np` of util/searchlight.py while the split points are read off:
+    everything is numpy's, except that `split` records its arguments and stops the call"""
+
+    def __init__(self):
+        self.seen = None
+
+    def __getattr__(self, name):
+        return getattr(np, name)
+
+    def split(self, ary, pts, *a, **k):
+        self.seen = (np.array(ary), np.array(pts))
+        raise _Abort()
+
+
+def _real_split(n):
+    """the array and the split points that the *code under check* hands to `np.split` for `n`
+    centres (no RDM is computed: the call is stopped at `np.split`); None if it does not chunk"""
+    proxy = _NumpyProxy()
+    old = SL.np
+    SL.np = proxy
+    try:
+        SL.get_searchlight_RDMs(np.zeros((2, 1)), np.arange(n), None, np.array([0, 1]),
+                                method='euclidean')
+    except _Abort:
+        pass
+    except Exception:   # noqa: BLE001  (not chunked: the plain branch fails on neighbors=None)
+        pass
+    finally:
+        SL.np = old
+    return proxy.seen
+
+
+def _run_points(case):
+    out = {'ns': [], 'minus_one': [], 'pts': [], 'n_chunks': [], 'lens': [], 'partition': [], 'chunked': []}
+    for n in case['ns']:
+        seen = _real_split(n)
+        out['ns'].append(n)
+        if seen is None:
+            for k in ('minus_one', 'pts', 'lens'):
+                out[k].append(None)
+            out['n_chunks'].append(0)
+            out['partition'].append(True)
+            out['chunked'].append(False)
+            continue
+        arr, pts = seen
+        chunks = np.split(arr, pts)
+        flat = np.concatenate(chunks) if chunks else np.zeros(0, dtype=int)
+        part = bool(arr.shape == (n,) and np.array_equal(arr, np.arange(n))
+                    and flat.shape == (n,) and np.array_equal(flat, np.arange(n)))
+        ptl = [int(x) for x in pts]
+        fl = [(i + 1) * n // 100 for i in range(99)]
+        if len(ptl) == 99 and all(0 <= a - b <= 1 for a, b in zip(fl, ptl)):
+            out['minus_one'].append([i for i, (a, b) in enumerate(zip(fl, ptl)) if a != b])
+            out['pts'].append(None)
+        else:
+            out['minus_one'].append(None)
+            out['pts'].append(ptl)
+        out['n_chunks'].append(len(chunks))
+        out['lens'].append([int(len(c)) for c in chunks] if n in case.get('full', ()) else None)
+        out['partition'].append(part)
+        out['chunked'].append(True)
+    _POINTS_IMPL[_key(case)] = out
+    return out
 
 
 # ------------------------------------------------------------------ generation
@@ -266,6 +411,13 @@ def _gen_rdms(rng, method=None):
                 'threshold': rat(rng.choice([F(0), F(1, 2), F(2, 3)])),
                 'events': _gen_events(rng, method), 'method': method,
                 'seed': rng.randint(0, 10 ** 9), 'shuffle': rng.random() < 0.4, 'take': None}
+        if rng.random() < 0.5:
+            # the same inputs handed over in another public form
+            case['form'] = {'data': rng.choice(['list', 'int', 'f32', 'fortran', 'strided', 'float']),
+                            'nb': rng.choice(['list', 'array', 'tuple']),
+                            'centers': rng.choice(['array', 'list']),
+                            'events': rng.choice(['int', 'str']),
+                            'events_list': rng.random() < 0.5}
         if len(_expand_rdms(case)[1]) >= 1:
             return case
 
@@ -289,9 +441,79 @@ def _gen_eval(rng, n_jobs, backend):
     ncent = len(_expand_rdms(base)[1])
     sched = list(range(ncent))
     rng.shuffle(sched)
+    delays = [rng.choice([0, 0, 1, 2, 3]) for _ in range(ncent)]
+    if n_jobs > 1:
+        delays[0] = 25      # the first task certainly finishes after the second: out of order
     return dict(base, op='eval', n_jobs=n_jobs, backend=backend,
-                delays=[rng.choice([0, 0, 1, 2, 3]) for _ in range(ncent)], sched=sched,
+                delays=delays, sched=sched,
                 model_seed=rng.randint(0, 10 ** 6))
+
+
+def _gen_points(tier):
+    """every number of centres from 1001 to 20000: the split points the code under check
+    really hands to `np.split` (no RDM is computed); `full` = also the chunk lengths"""
+    step = 1 if tier != 'quick' else 25
+    for lo in range(1001, 20001, 1000):
+        ns = list(range(lo, min(lo + 1000, 20001)))
+        yield {'op': 'points', 'ns': ns, 'full': [n for n in ns if n % step == 0 or n in (1001, 20000)]}
+    # far above: spot checks
+    yield {'op': 'points', 'ns': [25000, 99999, 100000, 123457, 1000000], 'full': [25000, 123457]}
+
+
+def _gen_pipeline(rng, big=False):
+    """mask -> library's own centres / neighbours -> RDMs -> evaluation list"""
+    while True:
+        if big:
+            shape = rng.choice([[11, 11, 10], [12, 10, 9], [21, 8, 7]])
+            n = shape[0] * shape[1] * shape[2]
+            mask = [1] * n
+            for _ in range(rng.randint(0, 25)):
+                mask[rng.randrange(n)] = 0
+            r, thr = rng.choice([F(1), F(3, 2)]), rng.choice([F(0), F(1, 2)])
+        else:
+            shape = [rng.randint(1, 4), rng.randint(1, 4), rng.randint(1, 3)]
+            n = shape[0] * shape[1] * shape[2]
+            mask = _rand_mask(rng, n, 'int')
+            r, thr = rng.choice(RADII_POS), rng.choice(THRESHOLDS)
+        case = {'op': 'pipeline', 'shape': shape, 'mask': mask, 'radius': rat(r), 'threshold': rat(thr),
+                'events': _gen_events(rng, 'euclidean'), 'method': 'euclidean',
+                'seed': rng.randint(0, 10 ** 9), 'shuffle': False, 'take': None,
+                'n_jobs': rng.choice([1, 1, 2, 3])}
+        nc = len(_expand_rdms(case)[1])
+        if (nc > 1000) if big else (nc >= 1):
+            return case
+
+
+def _gen_boundary(rng):
+    """volumes one voxel thick, masks reaching the faces, radius <= 1 / whole-volume radius,
+    thresholds 0 and 1, and masks built so that a fraction equals the threshold exactly"""
+    kind = rng.choice(['thin', 'thin', 'huge', 'small_r', 'thr_eq', 'full_border'])
+    if kind == 'thin':
+        shape = [rng.randint(1, 6), rng.randint(1, 6), rng.randint(1, 6)]
+        for ax in rng.sample(range(3), rng.choice([1, 2])):
+            shape[ax] = 1
+    else:
+        shape = [rng.randint(2, 4), rng.randint(2, 4), rng.randint(1, 3)]
+    n = shape[0] * shape[1] * shape[2]
+    mask = [1] * n if kind == 'full_border' else _rand_mask(rng, n, 'int')
+    r = {'huge': lambda: rng.choice(RADII_HUGE), 'small_r': lambda: rng.choice([F(1, 2), F(1), F(0.999), F(1.001)]),
+         }.get(kind, lambda: rng.choice(RADII_POS))()
+    thr = rng.choice([F(0), F(1)]) if kind in ('huge', 'small_r', 'full_border') else rng.choice(THRESHOLDS)
+    if kind == 'thr_eq':
+        # pick the threshold as the exact in-mask fraction of some mask voxel's searchlight
+        flags = mask
+        cands = []
+        for i in range(n):
+            if flags[i]:
+                c = (i // (shape[1] * shape[2]), i // shape[2] % shape[1], i % shape[2])
+                sl = [_lin(shape, v) for v in _spec_searchlight(shape, c, r)]
+                if sl:
+                    cands.append(F(sum(1 for j in sl if flags[j]), len(sl)))
+        cands = [f for f in cands if 0 < f < 1]
+        if cands:
+            thr = rng.choice(cands)
+    return {'op': 'volume', 'shape': shape, 'mask': mask, 'mask_kind': rng.choice(['bool', 'int', 'float']),
+            'radius': rat(r), 'radius_int': rng.random() < 0.5, 'threshold': rat(thr)}
 
 
 def _exhaustive_222():
@@ -325,6 +547,12 @@ def generate(rng, tier):
         yield _gen_neighbors(rng, big=not quick)
     for _ in range(1200 if quick else 25000):
         yield _gen_volume(rng, big=not quick)
+    for _ in range(300 if quick else 6000):
+        yield _gen_boundary(rng)
+    yield from _gen_points(tier)
+    for _ in range(60 if quick else 1200):
+        yield _gen_pipeline(rng)
+    yield _gen_pipeline(rng, big=True)
     if not quick:
         yield from _exhaustive_222()
         yield from _exhaustive_neighbors()
@@ -333,6 +561,7 @@ def generate(rng, tier):
     # chunking: exactly at, just above, and well above the limit
     yield _gen_big(rng, 1000, 'euclidean')
     yield _gen_big(rng, 1001, 'euclidean')
+    yield _gen_big(rng, rng.randint(1002, 1099), 'euclidean')   # same session, neighbouring n
     yield _gen_big(rng, None, 'correlation')
     yield _gen_big(rng, rng.choice([None, 1002, 1100]), 'poisson')
     yield _gen_big(rng, rng.choice([None, 1001]), 'mahalanobis')
@@ -358,6 +587,11 @@ def search(rng, tier):
         yield _gen_volume(rng)
         yield _gen_neighbors(rng)
         yield _gen_rdms(rng)
+        yield _gen_boundary(rng)
+        yield _gen_pipeline(rng)
+        if rng.random() < 0.02:
+            lo = rng.randint(1001, 19000)
+            yield {'op': 'points', 'ns': list(range(lo, lo + 200)), 'full': [lo]}
         if rng.random() < 0.05:
             yield _gen_big(rng, rng.choice([None, 1001]), 'euclidean')
         if rng.random() < 0.1:
@@ -409,7 +643,37 @@ def _run_eval(case):
     vec_bad = sum(1 for i, t in enumerate(toks)
                   if i >= sl.n_rdm or not np.array_equal(np.array(t[1]), sl.dissimilarities[i], equal_nan=True))
     return {'tokens': [int(t[0]) for t in toks], 'vec_mismatch': vec_bad, 'eval_mismatch': mism,
+            'vecs': [[float(x) for x in t[1]] for t in toks],
             'completion_in_order': order == sorted(order)}
+
+
+def _run_pipeline(case):
+    """the three library calls chained on the library's own intermediate results"""
+    import joblib
+    from engines.C19_tasks import token_eval
+    shape = tuple(case['shape'])
+    events = list(case['events'])
+    data = _pipeline_data(case)
+    mask = np.array(_flags(case), dtype=int).reshape(shape)
+    centers, nbs = SL.get_volume_searchlight(mask, radius=float(unrat(case['radius'])),
+                                             threshold=float(unrat(case['threshold'])))
+    if len(centers) == 0:
+        return {'results': [], 'centers': []}
+    sl = SL.get_searchlight_RDMs(np.array(data, dtype=float), centers, nbs, np.array(events),
+                                 method='euclidean')
+    with joblib.parallel_backend('threading'):
+        toks = SL.evaluate_models_searchlight(sl, None, token_eval, method='corr', theta=None,
+                                              n_jobs=case['n_jobs'])
+    return {'results': [[int(t[0]), [float(x) for x in t[1]]] for t in toks],
+            'centers': [int(c) for c in np.asarray(centers).ravel()]}
+
+
+def _pipeline_data(case):
+    import random
+    shape = tuple(case['shape'])
+    n = shape[0] * shape[1] * shape[2]
+    rr = random.Random(case['seed'])
+    return [[rr.randint(-4, 4) for _ in range(n)] for _ in case['events']]
 
 
 def run_impl(case):
@@ -434,13 +698,17 @@ def _run_impl(case):
                     'neighbors': [[int(x) for x in np.asarray(s).ravel()] for s in nb]}
         if op == 'rdms':
             data, centers, nbs, events = _expand_rdms(case)
-            out = SL.get_searchlight_RDMs(np.array(data, dtype=float), np.array(centers), nbs,
-                                          np.array(events), method=case['method'])
+            d, c, nb, ev = _lib_args(case, data, centers, nbs, events)
+            out = SL.get_searchlight_RDMs(d, c, nb, ev, method=case['method'])
             return {'rdm': [[None if math.isnan(v) else float(v) for v in row]
                             for row in out.dissimilarities.tolist()],
                     'voxel_index': [int(v) for v in out.rdm_descriptors['voxel_index']]}
         if op == 'eval':
             return _run_eval(case)
+        if op == 'points':
+            return _run_points(case)
+        if op == 'pipeline':
+            return _run_pipeline(case)
     except Exception as exc:  # noqa: BLE001  (library exceptions are part of the observable result)
         return _exc(exc)
     raise ValueError(f'unknown op {op}')
@@ -463,18 +731,30 @@ def model_requests(case):
         return [{'op': 'c19.rdms', 'method': case['method'],
                  'data': [[enc(v) for v in row] for row in data],
                  'centers': centers, 'neighbors': nbs, 'events': events,
-                 'pts': _pts(len(centers)) if len(centers) > 1000 else []}]
+                 'pts': None}]     # the model computes numpy's split points itself (`linspacePts`)
     if op == 'eval':
-        _, centers, _, _ = _expand_rdms(case)
+        data, centers, nbs, events = _expand_rdms(case)
         sched = _OBSERVED_ORDER.get(_key(case), case['sched'])
         if sorted(sched) != list(range(len(centers))):
             sched = case['sched']
-        return [{'op': 'c19.collect', 'tokens': centers, 'sched': sched}]
+        return [{'op': 'c19.collect', 'tokens': centers, 'sched': sched},
+                {'op': 'c19.eval', 'data': data, 'centers': centers, 'neighbors': nbs, 'events': events,
+                 'sched': sched}]
+    if op == 'points':
+        impl = run_impl(case) if _key(case) not in _POINTS_IMPL else _POINTS_IMPL[_key(case)]
+        reqs = []
+        for i, n in enumerate(impl['ns']):
+            reqs.append({'op': 'c19.points', 'n': n, 'minus_one': impl['minus_one'][i], 'pts': impl['pts'][i],
+                         'full': n in case.get('full', ())})
+        return reqs
+    if op == 'pipeline':
+        return [{'op': 'c19.pipeline', 'shape': case['shape'], 'mask': _flags(case), 'radius': case['radius'],
+                 'threshold': case['threshold'], 'data': _pipeline_data(case), 'events': case['events']}]
     raise ValueError(op)
 
 
 def model_result(case, answers):
-    a = answers[0]
+    a = answers[0] if answers else None
     op = case['op']
     if isinstance(a, dict) and 'model_error' in a:
         # designs / methods the model rejects, with the exception class the library documents
@@ -499,11 +779,37 @@ def model_result(case, answers):
             rows = [[None if v is None else unfbits(v) for v in row] for row in a['rdm']]
         return {'rdm': rows, 'voxel_index': a['voxel_index']}
     if op == 'eval':
-        return {'tokens': a, 'vec_mismatch': 0, 'eval_mismatch': 0}
+        b = answers[1]
+        if isinstance(b, dict) and 'model_error' in b:
+            return b
+        slots = b['slots']
+        if b['n_tasks'] != len(slots) or any(x is None for x in slots):
+            return {'model_error': 'model left a slot empty although every task ran '
+                                   '(contradicts eval_per_center_any_schedule)'}
+        if [x[0] for x in slots] != a:
+            return {'model_error': 'c19.eval and c19.collect disagree'}
+        return {'tokens': [x[0] for x in slots], 'vec_mismatch': 0, 'eval_mismatch': 0,
+                'vecs': [[float(unrat(v)) for v in x[1]] for x in slots]}
+    if op == 'points':
+        for x in answers:
+            if isinstance(x, dict) and 'model_error' in x:
+                return x
+        return {'ok': [x['ok'] for x in answers], 'float_model_equal': [x['float_model_equal'] for x in answers],
+                'n_chunks': [x['n_chunks'] for x in answers], 'partition': [x['partition'] for x in answers],
+                'lens': [x['lens'] for x in answers], 'chunked': [x['chunked'] for x in answers]}
+    if op == 'pipeline':
+        return {'results': [[x[0], [float(unrat(v)) for v in x[1]]] for x in a]}
     raise ValueError(op)
 
 
-def _rows_diff(a, b, what):
+def _tol(case):
+    """float32 input is computed in float32 by the library"""
+    if (case.get('form') or {}).get('data') == 'f32':
+        return (2e-4, 2e-5)
+    return (1e-9, 1e-12)
+
+
+def _rows_diff(a, b, what, rtol=1e-9, atol=1e-12):
     if len(a) != len(b):
         return f'{what}: {len(a)} rows != {len(b)}'
     for i, (ra, rb) in enumerate(zip(a, b)):
@@ -515,7 +821,7 @@ def _rows_diff(a, b, what):
             if xn or yn:
                 if xn != yn:
                     return f'{what}[{i}][{j}]: {x!r} != {y!r}'
-            elif not close(x, y, 1e-9, 1e-12):
+            elif not close(x, y, rtol, atol):
                 return f'{what}[{i}][{j}]: {x!r} != {y!r}'
     return None
 
@@ -563,7 +869,7 @@ def _compare(case, impl, model):
     if op == 'rdms':
         if impl['voxel_index'] != model['voxel_index']:
             return 'voxel_index descriptor differs from the centres'
-        return _rows_diff(impl['rdm'], model['rdm'], 'rdm')
+        return _rows_diff(impl['rdm'], model['rdm'], 'rdm', *_tol(case))
     if op == 'eval':
         if impl['tokens'] != model['tokens']:
             return f'results not one per centre in centre order: {impl["tokens"][:8]} vs {model["tokens"][:8]}'
@@ -571,7 +877,36 @@ def _compare(case, impl, model):
             return f'{impl["vec_mismatch"]} tasks received an RDM that is not the one of their centre'
         if impl['eval_mismatch']:
             return f'{impl["eval_mismatch"]} evaluation results differ from the per-centre direct call'
+        # end to end: the vector each task received is the model's direct RDM of that centre
+        return _rows_diff(impl['vecs'], model['vecs'], 'task rdm')
+    if op == 'points':
+        for i, n in enumerate(impl['ns']):
+            if impl['chunked'][i] != model['chunked'][i]:
+                return f'n={n}: code {"chunks" if impl["chunked"][i] else "does not chunk"}, model the opposite'
+            if not impl['chunked'][i]:
+                continue
+            if not model['ok'][i]:
+                return f'n={n}: the split points of the code are not admissible (PtsOk fails)'
+            if not model['float_model_equal'][i]:
+                return f'n={n}: split points of the code differ from the model\'s linspace'
+            if impl['n_chunks'][i] != model['n_chunks'][i]:
+                return f'n={n}: {impl["n_chunks"][i]} chunks vs model {model["n_chunks"][i]}'
+            if not model['partition'][i] or not impl['partition'][i]:
+                return f'n={n}: chunks do not partition the centres'
+            if impl['lens'][i] is not None and impl['lens'][i] != model['lens'][i]:
+                return f'n={n}: chunk lengths differ'
         return None
+    if op == 'pipeline':
+        a, b = impl['results'], model['results']
+        if [x[0] for x in a] != impl['centers']:
+            return 'pipeline: results are not one per centre in the order of the centres returned by ' \
+                   f'get_volume_searchlight: {[x[0] for x in a][:10]} vs {impl["centers"][:10]}'
+        # the property fixes no order of the centres themselves: compare centre -> vector
+        a, b = sorted(a), sorted(b)
+        if [x[0] for x in a] != [x[0] for x in b]:
+            return f'pipeline: centres of the results differ: {[x[0] for x in a][:10]} ({len(a)}) vs ' \
+                   f'{[x[0] for x in b][:10]} ({len(b)})'
+        return _rows_diff([x[1] for x in a], [x[1] for x in b], 'pipeline rdm')
     raise ValueError(op)
 
 
@@ -723,7 +1058,7 @@ def oracle(case):
         for i, s in enumerate(nbs):
             cols = [[row[j] for j in s] for row in data]
             want = [float(v) for v in _direct_rdm(cols, events, case['method'])]
-            d = _rows_diff([impl['rdm'][i]], [want], f'centre#{i}')
+            d = _rows_diff([impl['rdm'][i]], [want], f'centre#{i}', *_tol(case))
             if d:
                 return {'what': 'RDM of a centre is not the RDM computed directly from its searchlight columns',
                         'centre_number': i, 'observed': impl['rdm'][i], 'expected': want, 'detail': d,
@@ -737,7 +1072,57 @@ def oracle(case):
                     'features': feats}
         if impl['tokens'] != centers or impl['vec_mismatch'] or impl['eval_mismatch']:
             return {'what': 'evaluate_models_searchlight does not return one result per centre in centre order',
-                    'observed': impl, 'expected': {'tokens': centers}, 'features': feats}
+                    'observed': {k: v for k, v in impl.items() if k != 'vecs'}, 'expected': {'tokens': centers},
+                    'features': feats}
+        # end to end: what task i was given is the RDM computed directly from searchlight i's columns
+        data, _, nbs, events = _expand_rdms(case)
+        for i, sl in enumerate(nbs):
+            want = [float(v) for v in _direct_rdm([[row[j] for j in sl] for row in data], events, 'euclidean')]
+            d = _rows_diff([impl['vecs'][i]], [want], f'task#{i}')
+            if d:
+                return {'what': 'the RDM evaluated for a centre is not the RDM computed directly from its '
+                                'searchlight columns', 'centre_number': i, 'observed': impl['vecs'][i],
+                        'expected': want, 'detail': d, 'features': feats}
+        return None
+    if op == 'points':
+        # property: whatever the number of centres, every centre gets exactly one row, i.e. the
+        # chunks the code builds cover 0..n-1 once each, in order
+        for i, n in enumerate(impl.get('ns', [])):
+            if impl['chunked'][i] and not impl['partition'][i]:
+                return {'what': 'the chunks of get_searchlight_RDMs do not cover every centre exactly once',
+                        'n_centers': n, 'observed': {'n_chunks': impl['n_chunks'][i]},
+                        'expected': 'np.concatenate(chunks) == arange(n)', 'features': dict(base, n_centers=n)}
+        if 'exc' in impl:
+            return {'what': 'reading the split points raised', 'observed': impl, 'expected': 'points',
+                    'features': base}
+        return None
+    if op == 'pipeline':
+        shape, flags = tuple(case['shape']), _flags(case)
+        feats = dict(base, n_jobs=case['n_jobs'])
+        if 'exc' in impl:
+            return {'what': 'the searchlight pipeline raised', 'observed': impl, 'expected': 'a result list',
+                    'features': feats}
+        nvox = shape[0] * shape[1] * shape[2]
+        wc, wn = _spec_volume(shape, flags, unrat(case['radius']), unrat(case['threshold']), fast=nvox > 300)
+        got = impl['results']
+        if [x[0] for x in got] != impl['centers']:
+            return {'what': 'the pipeline results are not in the order of the centres',
+                    'observed': [x[0] for x in got][:30], 'expected': impl['centers'][:30], 'features': feats}
+        if sorted(x[0] for x in got) != wc or len(got) != len(wc):
+            return {'what': 'the pipeline does not return exactly one result per accepted centre',
+                    'observed': [x[0] for x in got][:30], 'expected': wc[:30], 'features': feats}
+        data = _pipeline_data(case)
+        want_nb = dict(zip(wc, wn))
+        check = range(len(got)) if len(got) <= 60 else list(range(0, len(got), 37)) + [len(got) - 1]
+        for i in check:
+            c, vec = got[i]
+            want = [float(v) for v in _direct_rdm([[row[j] for j in want_nb[c]] for row in data],
+                                                  list(case['events']), 'euclidean')]
+            d = _rows_diff([vec], [want], f'result#{i}')
+            if d:
+                return {'what': 'a pipeline result is not the RDM computed directly from the data columns of '
+                                'the searchlight of its centre', 'centre': c, 'observed': vec, 'expected': want,
+                        'detail': d, 'features': feats}
         return None
     raise ValueError(op)
 
@@ -754,6 +1139,18 @@ def features(case, impl):
         shape, c, r = case['shape'], case['center'], unrat(case['radius'])
         inside = all(0 <= ci < s for ci, s in zip(c, shape))
         f['radius'] = str(float(r))
+        nvox = shape[0] * shape[1] * shape[2]
+        if 1 in shape and nvox > 1:
+            b.append('nb:thin')
+        if len(set(shape)) == 3:
+            b.append('nb:noncubic')
+        if r >= 10:
+            b.append('nb:huge_radius')
+        if inside and isinstance(impl, list):
+            if len(impl) == nvox and nvox > 1:
+                b.append('nb:whole_volume')
+            if 0 < r <= 1 and len(impl) == 1 and nvox > 1:
+                b.append('nb:singleton')
         if r <= 0:
             b.append('nb:r_le_0')
         elif not inside:
@@ -771,7 +1168,25 @@ def features(case, impl):
         f['mask_binary'] = all(unrat(v) in (0, 1) for v in case['mask'])
         if not f['mask_binary']:
             b.append('vol:nonbinary')
-        wc, _ = _spec_volume(tuple(case['shape']), flags, unrat(case['radius']), unrat(case['threshold']))
+        info = {}
+        wc, _ = _spec_volume(tuple(case['shape']), flags, unrat(case['radius']), unrat(case['threshold']),
+                             info=info)
+        thr_, r_ = unrat(case['threshold']), unrat(case['radius'])
+        if sum(flags) and r_ > 0:
+            if thr_ == 0:
+                b.append('vol:thr0')
+            if thr_ == 1:
+                b.append('vol:thr1')
+            if info.get('frac_eq_thr') and 0 < thr_ < 1:
+                b.append('vol:frac_eq_thr')
+            if info.get('border_accepted'):
+                b.append('vol:border_accepted')
+            if 1 in case['shape'] and len(flags) > 1:
+                b.append('vol:thin')
+            if r_ >= 10:
+                b.append('vol:huge_radius')
+            if r_ <= 1:
+                b.append('vol:radius_le_1')
         f['empty_result'] = not wc
         nmask = sum(flags)
         b.append('vol:none' if not wc else 'vol:all' if len(wc) == nmask else 'vol:some')
@@ -787,6 +1202,20 @@ def features(case, impl):
         if case.get('shuffle'):
             b.append('rdms:shuffled')
         b.append('rdms:' + case['method'])
+        form = case.get('form') or {}
+        f['form'] = '/'.join(f'{k}={form[k]}' for k in sorted(form)) or 'default'
+        for k, tag in (('list', 'rdms:form_list'), ('fortran', 'rdms:form_fortran'), ('int', 'rdms:form_int'),
+                       ('f32', 'rdms:form_f32')):
+            if form.get('data') == k:
+                b.append(tag)
+        if form.get('events') == 'str':
+            b.append('rdms:labels_str')
+        if form.get('nb') == 'array':
+            b.append('rdms:nb_arrays')
+        if form.get('nb') == 'tuple':
+            b.append('rdms:nb_tuples')
+        if form.get('centers') == 'list':
+            b.append('rdms:centers_list')
         rej = _expected_rejection(list(case['events']), case['method'])
         f['rejected'] = rej
         if rej:
@@ -799,6 +1228,26 @@ def features(case, impl):
                  'eval:threads' if case['backend'] == 'threading' else 'eval:processes')
         if isinstance(impl, dict) and 'completion_in_order' in impl:
             f['completion_in_order'] = impl['completion_in_order']
+            if not impl['completion_in_order']:
+                b.append('eval:out_of_order')
+        if isinstance(impl, dict) and 'vecs' in impl:
+            b.append('eval:end_to_end')
+    elif op == 'points':
+        b.append('pts:range')
+        if isinstance(impl, dict) and 'minus_one' in impl:
+            if any(m for m in impl['minus_one']):
+                b.append('pts:deviates_from_floor')
+            if any(l is not None and len(set(l)) > 1 for l in impl['lens']):
+                b.append('pts:uneven_chunks')
+    elif op == 'pipeline':
+        f['n_jobs'] = case['n_jobs']
+        if isinstance(impl, dict) and 'results' in impl:
+            k = len(impl['results'])
+            f['n_centers_class'] = '>1000' if k > 1000 else '<=1000'
+            if k > 1000:
+                b.append('pipe:chunked')
+            elif 0 < k < sum(_flags(case)):
+                b.append('pipe:some')
     return f
 
 
@@ -817,13 +1266,20 @@ def nontrivial_key(case, impl):
         if len(impl['centers']) in (0, sum(_flags(case))):
             return None
         return [op, case['shape'], _flags(case), case['radius'], case['threshold']]
+    if op == 'points':
+        return [op, case['ns'][0], case['ns'][-1]] if isinstance(impl, dict) and 'ns' in impl else None
+    if op == 'pipeline':
+        if not isinstance(impl, dict) or len(impl.get('results', [])) < 2:
+            return None
+        return [op, case['shape'], case['mask'], case['radius'], case['threshold'], case['events'], case['seed']]
     if op in ('rdms', 'eval'):
         if not isinstance(impl, dict) or 'exc' in impl:
             return None
         if op == 'rdms' and (len(impl['rdm']) < 2 or all(v is None for row in impl['rdm'] for v in row)):
             return None
         return [op, case['shape'], case['mask'], case['radius'], case['threshold'], case['events'],
-                case['method'], case['seed'], case.get('take'), case.get('n_jobs'), case.get('backend')]
+                case['method'], case['seed'], case.get('take'), case.get('n_jobs'), case.get('backend'),
+                sorted((case.get('form') or {}).items())]
     return None
 
 
